@@ -76,7 +76,7 @@ class BModel(KModel):
         it = deref_all(iterable)
         if isinstance(it, Enum) and it.adt == 'std::ops::Range':
             s_, e_ = deref_all(it.fields['start']), deref_all(it.fields['end'])
-            if isinstance(s_, Num) and isinstance(e_, Num):
+            if isinstance(s_, Num) and isinstance(e_, Num) and not (s_.const() is not None and e_.const() is not None):
                 # one inductive step with a symbolic position; a buffer pushed to once per iteration grows by the trip count
                 bufs = []
                 f = frame
@@ -128,6 +128,14 @@ class BModel(KModel):
             if isinstance(n, int):
                 return NONE
             raise Unsupported("shape().get(%d) with unknown rank" % k, e)
+        if name in ('core::slice::<impl [T]>::iter', 'std::iter::IntoIterator::into_iter') and isinstance(a0, Obj) and a0.kind == 'shape':
+            # the (sub-)slice of the shape as a sequence: its extent must be known (`[..2]`, or a concrete rank)
+            off = a0.d.get('off', 0)
+            n = self.scn['ndim']
+            end = a0.d.get('end', n if isinstance(n, int) else None)
+            if end is None:
+                raise Unsupported("iteration over data.shape() needs the exact rank, which the builder may not depend on", e)
+            return Obj('cseq', src=[Ref(ValPlace(Num(Rat.atom('d%d' % k)))) for k in range(off, end)], ops=[], pos=0)
         if name in ('builtin::index', 'std::ops::Index::index', 'core::slice::index::<impl std::ops::Index for [T]>::index') and isinstance(a0, Obj) and a0.kind == 'shape':
             idx = deref_all(args[1])
             off = a0.d.get('off', 0)
